@@ -24,7 +24,7 @@ CHECKS = {
             "pipes of real child processes are replaced by send_data calls with the chunking of resend_stdio", "5/C19"),
     "C20": ("AUTH", "exploration", "property-based testing with a generated man-in-the-middle and a provenance-based reference model of acceptance",
             "Three honest do_authentication endpoints over in-memory duplex streams, an earlier clean session for replays, and an adversary that forwards/drops/reflects/replays/splices/edits each of the handshake messages; an endpoint must accept iff it received a request with its protocol, expected peer role and compatible mode and a response that is NoAuth (no key) or byte-identical to a proof produced by an honest holder of the same key with the expected role for this connection's challenge; sealed messages must round-trip after a clean handshake.",
-            "cryptographic strength of orion assumed; my_role != peer_role", "5/C20"),
+            "cryptographic strength of orion assumed; my_role != peer_role; before the generated search a wiring phase starts the real server (init_hq_server) with two different keys and tries all 32 combinations of port x role pair x key x protocol number as a connecting peer (only the two matching ones may be accepted); the retry logic of HyperQueue's connectors around do_authentication is not driven", "5/C20"),
     "C16": ("ALLOC", "exploration", "property-based differential testing: real allocator vs brute-force reference over all group subsets",
             "For every request the grant/refusal and the groups used are compared with an exhaustive reference on the pre-state snapshot: feasibility (non-strict requests never refused spuriously, never granted infeasibly), minimum groups now (compact/tight), minimum groups on the empty worker (strict, if granted), maximum spread (scatter), `all`, single fractional index, is_enabled == try_allocate, no panic.",
             "coupling weights <= 256 with at most 3 items; refusals of strict requests are not judged", "5/C16"),
@@ -54,7 +54,7 @@ CHECKS = {
             "correctly behaving workers only; harness panics are reported as inconclusive", "5/C09"),
     "C10": ("RESTORE", "fault_enumeration", "crash-point enumeration over generated journals (stateful property-based testing produces the journals) with an independent reference fold as oracle",
             "Journals are produced by SIM histories through the real journal process; every record boundary (and 8 interior offsets) is a crash point; the real restore runs on every prefix and is compared with a reference fold of the recorded events: startup succeeds, jobs/open flag/task sets/outcomes/counters, pending tasks exactly once with remaining dependencies, exact truncation of a torn tail, re-opened journal well formed; one restored server per case is continued to completion (every unfinished task runs exactly once).",
-            "crash = loss of a suffix of the file; interior cuts after the header", "5/C10"),
+            "crash = loss of a suffix of the file; interior cuts after the header; one case in eight additionally starts the real server (init_hq_server over loopback sockets) on a copy of the complete journal, asks it for its UID, submits a job and stops it", "5/C10"),
     "C11": ("RESTORE", "fault_enumeration", "crash-point enumeration over generated (also pruned) journals, comparison of issued ids with every id the prefix mentions",
             "For every cut of every generated journal the first job id, worker id and queue id that the restored server would issue and the server uid are compared with all ids mentioned anywhere in the prefix (jobs, workers in connect/loss/start records, queues).",
             "queue ids: the counter handed over by the restore is compared, and the restored queues are re-added to a real autoalloc state through the production AddQueue path before a new queue is created; second-generation restarts (restore, continue with random actions, restore again) cover repeated restarts", "5/C11"),
